@@ -5,13 +5,14 @@ from .. import cases, oracles
 from . import _align_common as ac
 
 TITLE = "Candidate unitary alignments are exactly those under the n*delta_empty cut"
-DECIDING = ["M-CAND"]
+DECIDING = ["M-CAND", "M-SESSION"]
 LEVEL = "exploration"
 RULE = ("(a) seeded random continua, 2-5 annotators, pooled dissimilarities; (b) continua engineered so that the "
         "candidate count sits on and around every growth boundary of the kernel's result buffers (10000, 15000, "
         "22500, 33750, 50625: a cluster of near-identical units makes every tuple pass, far-apart units add exactly "
         "one candidate each), 2 and 3 annotators; (c) an exact-arithmetic family (dyadic costs) in which tuples sit "
-        "exactly on the cut.  Each result is compared with the full enumeration of all index tuples.  Every case "
+        "exactly on the cut; (d) extreme delta_empty values (3e-7 .. 1e4); (e) sessions: candidates, an edit of the same "
+        "continuum object (add_annotator, merge of a unit-less annotator, add, remove), candidates again.  Each result is compared with the full enumeration of all index tuples.  Every case "
         "runs in a default build or a NUMBA_BOUNDSCHECK=1 build (alternating shards; boundary cases in both). "
         "non-trivial = at least 2 candidates expected; distinct by SHA-1 of the case")
 ASSUMPTIONS = [
@@ -75,11 +76,12 @@ def _is_small_dyadic(x):
     return y == np.floor(y) and abs(y) < 2 ** 30
 
 
-def check_case(ctx, case):
+def check_case(ctx, case, continuum=None):
     _, pool = ac.setup(ctx)
     cspec, dspec = case["continuum"], case["dissim"]
     dissim = pool.get(dspec)
-    continuum = cases.build_continuum(cspec)
+    if continuum is None:
+        continuum = cases.build_continuum(cspec)
     try:
         disorders, tuples = dissim.valid_alignments(continuum)
     except BaseException as e:
@@ -140,7 +142,7 @@ def check_case(ctx, case):
     if len(lin):
         ref = flat[lin]
         got = disorders.astype(np.float64)
-        tol = 2e-5 * np.maximum(1.0, np.maximum(np.abs(ref), np.abs(got)))
+        tol = 2e-5 * np.maximum(min(1.0, cut), np.maximum(np.abs(ref), np.abs(got)))   # scale-aware (tiny delta_empty)
         bad = np.where(~(np.abs(ref - got) <= tol))[0]
         if len(bad):
             problems.append(("wrong-candidate-disorder", {"n_wrong": int(len(bad)), "tuple": tuples[bad[0]].tolist(),
@@ -191,6 +193,32 @@ def run(ctx):
         ctx.begin_case(case)
         ctx.observe("family", "dyadic-on-the-cut")
         check_case(ctx, case)
+    # (d) extreme delta_empty values: every disorder and the cut scale with it, so nothing may depend on its magnitude
+    for _ in range(ctx.scale(40, 600)):
+        delta = rng.choice([1e-5, 2e-6, 1e-3, 1e4, 3e-7])
+        dspec = rng.choice([{"kind": "positional", "delta": delta}, {"kind": "absolute", "delta": delta},
+                            {"kind": "combined", "alpha": rng.choice([0.5, 1.0, 3.0]), "beta": rng.choice([0.0, 1.0, 2.0]),
+                             "delta": delta, "pos": None, "cat": None}])
+        n = rng.randint(2, 4)
+        cspec = cases.gen_continuum(rng, n_annot=n, max_units={2: 12, 3: 7, 4: 5}[n], min_total=2,
+                                    family=rng.choice(["grid", "dyadic", "mixeddur", "touching", "generic", "dense"]))
+        case = {"continuum": cspec, "dissim": dspec}
+        ctx.begin_case(case)
+        ctx.observe("family", "extreme-delta")
+        ctx.observe("delta_extreme", delta)
+        check_case(ctx, case)
+    # (e) sessions on ONE continuum object and one dissimilarity object: candidates, edit, candidates again
+    sess_specs = cases.gen_pool_specs(rng, 5) + [{"kind": "positional", "delta": 1.0}]
+    for _ in range(ctx.scale(40, 500)):
+        dspec = rng.choice(sess_specs)
+        labels = cases.dissim_labels(dspec) or cases.LABELS_SMALL
+        n = rng.randint(2, 4)
+        cspec = cases.gen_continuum(rng, n_annot=n, max_units=4, labels=labels, min_total=2)
+        ops = ac.gen_edit_ops(rng, cspec, labels, rng.randint(2, 5))
+        case = {"continuum": cspec, "dissim": dspec, "session": ops}
+        ctx.begin_case(case)
+        ctx.observe("family", "session")
+        check_case(ctx, case)
     # (a) random
     dspecs = cases.gen_pool_specs(rng, ctx.scale(10, 24))
     for _ in range(ctx.scale(120, 5000)):
@@ -220,4 +248,15 @@ _orig_check = check_case
 
 
 def check_case(ctx, case):  # noqa: F811  (replay files of engineered cases store the recipe, not 50 000 units)
+    if "session" in case:
+        _, pool = ac.setup(ctx)
+        continuum = cases.build_continuum(case["continuum"])
+        for op in [None] + case["session"]:
+            if op is not None:
+                ac.apply_edit(continuum, op)
+            if not continuum or len(continuum.annotators) < 2:
+                continue
+            ctx.count("M-SESSION")
+            _orig_check(ctx, {"continuum": cases.spec_of(continuum), "dissim": case["dissim"]}, continuum=continuum)
+        return
     return _orig_check(ctx, replay_case(case))
